@@ -336,6 +336,11 @@ func (r *ControllerFinder) getStatefulSetLikeWorkload(namespace string, ref *rol
 	if set == nil {
 		return nil, nil
 	}
+	// ReplicaSet is a known GVK only so that owner chains can be walked (GetOwnerWorkload, IsOwnedBy);
+	// it is not a workload a Rollout can drive, and ParseWorkload panics on it.
+	if _, ok := set.(*apps.ReplicaSet); ok {
+		return nil, nil
+	}
 	err := r.Get(context.TODO(), key, set)
 	if err != nil {
 		// when error is NotFound, it is ok here.
